@@ -186,6 +186,10 @@ pub async fn run(args: &Args, rep: &mut Reporter) {
             w.compact = 3;
             w.file_create = 6;
             w.delete_folder = 0;
+            // rewrites re-encrypt every row and re-compute every stored checksum
+            w.change_folder_pw = 2;
+            w.change_account_pw = 1;
+            w.change_cipher = 1;
             let mut s = match Session::start(&pristine, &hdir, rng.fork(h as u64), w).await {
                 Ok(s) => s,
                 Err(e) => {
